@@ -43,7 +43,7 @@ UNMODELLED_CTORS = {
     "RepeatUntil", "Prefixed", "PrefixedArray", "NullTerminated", "GreedyBytes",
     "GreedyString", "CString", "PascalString", "Union", "Select", "LazyStruct", "Rebuild",
     "Default", "Check", "StopIf", "Terminated", "Aligned", "AlignedStruct", "BitStruct",
-    "Bitwise", "FocusedSeq", "Sequence", "Lazy", "FixedSized", "RestreamData",
+    "Bitwise", "FocusedSeq", "Sequence", "Lazy", "RestreamData",
 }
 
 
@@ -53,6 +53,19 @@ class UnmodelledConstruct(AnalysisError):
     def __init__(self, name, where):
         super().__init__(f"construct.{name} is outside the modelled fragment ({where})")
         self.name = name
+
+
+class SymCond:
+    """a comparison over values parsed from the stream (this.count > 0): decided per file, not per layout"""
+
+    def __init__(self, text):
+        self.text = text
+
+    def __repr__(self):
+        return f"<condition {self.text}>"
+
+    def __bool__(self):
+        raise AnalysisError(f"the layout branches on a parsed value ({self.text}) outside a conditional construct")
 
 
 class Closure:
@@ -252,6 +265,11 @@ class LayoutEval:
                 return l * r
             if isinstance(node.op, ast.FloorDiv) and l.is_const() and r.is_const():
                 return l.value() // r.value()
+            if isinstance(node.op, ast.Mod) and l.is_const() and r.is_const() and r.value() != 0:
+                return l.value() % r.value()
+            if isinstance(node.op, (ast.FloorDiv, ast.Mod)):
+                # not a polynomial: kept as an atom that folds once the record's counts / lengths are given values
+                return Poly.func("floordiv" if isinstance(node.op, ast.FloorDiv) else "mod", [l, r])
             raise AnalysisError(f"unmodelled arithmetic in layout: {norm(node)}")
         if isinstance(node, ast.Subscript):
             v = self.ev(node.value, mod, local)
@@ -279,6 +297,8 @@ class LayoutEval:
                 return res if isinstance(op, ast.In) else not res
             if isinstance(op, (ast.Lt, ast.LtE, ast.Gt, ast.GtE)) and isinstance(l, (int, float)) and isinstance(r, (int, float)):
                 return {ast.Lt: l < r, ast.LtE: l <= r, ast.Gt: l > r, ast.GtE: l >= r}[type(op)]
+            if isinstance(op, (ast.Lt, ast.LtE, ast.Gt, ast.GtE)) and any(isinstance(x, (Poly, This)) for x in (l, r)):
+                return SymCond(norm(node))  # a condition on parsed values: only meaningful as an argument of a conditional construct
             raise AnalysisError(f"unmodelled comparison {norm(node)}")
         if isinstance(node, ast.JoinedStr):
             parts = []
@@ -546,6 +566,8 @@ class LayoutEval:
             return Con("array", sub=self.as_con(args[1], node), count=self.num(args[0]), node=node)
         if n == "Renamed":
             return Con("renamed", name=args[1], sub=self.as_con(args[0], node), node=node, mod=None)
+        if n == "FixedSized":
+            return Con("fixedsized", size=self.num(args[0]), sub=self.as_con(args[1], node), node=node)
         if n == "BytesInteger":
             return Con("int", size=self.num(args[0]), name=f"BytesInteger{args[0]}")
         raise AnalysisError(f"construct.{n} is outside the modelled fragment")
@@ -743,6 +765,12 @@ class LayoutEval:
                 lf.strides = list(strides) + [(name, count, esize)] + lf.strides
                 out.append(lf)
             return pos + count * esize
+        if k == "fixedsized":
+            # the sub-construct parses from a window of exactly `size` bytes; the stream continues after the window
+            size = self._rebase(c.size, ctx, values, name)
+            inner_end = self.walk(c.sub, pos, ctx, out, values, strides, path, chain)
+            out.append(Leaf(path=_strip(path) + ("<window>",), kind="window", offset=pos, width=size, base="FixedSized", chain=[], strides=list(strides), inner=inner_end - pos))
+            return pos + size
         if k == "seek":
             if c.whence not in (0, None):
                 raise AnalysisError(f"{name}: Seek with whence={c.whence} not modelled")
